@@ -497,4 +497,29 @@ def c08(tier, seed):
     return out
 
 
-CASES = {'C08': c08, 'C01': c01, 'C05': c05, 'C10': c10, 'C11': c11, 'C12': c12, 'C13': c13, 'C17': c17, 'C19': c19, 'C03': c03, 'C04': c04, 'C09': c09, 'C15': c15, 'C02': c02}
+# ------------------------------------------------------------------ C06: job table histories through the hook module (real library code)
+def c06(tier, seed):
+    out = []
+    pidsets = [[500, 3], [3, 500], [7, 9, 8], [9, 8, 7], [5, 4, 6]]
+    for pids in pidsets:
+        for order in itertools.permutations(pids):
+            gid = pids[0]
+            script, expect, live = [], [], list(pids)
+            for p_ in pids:
+                script.append('insert %d %d 0' % (gid, p_))
+            for p_ in order:
+                script.append('remove %d %d' % (gid, p_))
+                live.remove(p_)
+                expect.append('removed_job %d' % (0 if live else 1))
+                script.append('dump')
+                expect.append('table' + (' [id=1 jid=1 gid=%d status=Running bg=0 pids=%s stopped=[]]' % (gid, live) if live else ''))
+            out.append({'via': 'hook', 'script': script, 'expect': expect, 'area': 'job-table:remove-order', 'id': 'pids=%s order=%s' % (pids, list(order))})
+    # smallest unused id: three jobs, remove the middle one, the next job takes its id
+    script = ['insert 10 10 1', 'insert 20 20 1', 'insert 30 30 1', 'remove 20 20', 'insert 40 40 1', 'dump']
+    expect = ['removed_job 1', 'table [id=1 jid=1 gid=10 status=Running bg=1 pids=[10] stopped=[]] [id=2 jid=2 gid=40 status=Running bg=1 pids=[40] stopped=[]] '
+              '[id=3 jid=3 gid=30 status=Running bg=1 pids=[30] stopped=[]]']
+    out.append({'via': 'hook', 'script': script, 'expect': expect, 'area': 'job-table:smallest-free-id', 'id': 'reuse id 2'})
+    return out
+
+
+CASES = {'C06': c06, 'C08': c08, 'C01': c01, 'C05': c05, 'C10': c10, 'C11': c11, 'C12': c12, 'C13': c13, 'C17': c17, 'C19': c19, 'C03': c03, 'C04': c04, 'C09': c09, 'C15': c15, 'C02': c02}
